@@ -42,6 +42,8 @@ type Op struct {
 	Produces []string
 	Sec      Sec
 	Body     bool
+	// NoContent: the declared success response is 204 No Content (else 200)
+	NoContent bool
 }
 
 type Desc struct {
@@ -95,7 +97,7 @@ func (d Desc) JSON() M {
 	ops := make([]M, 0, len(d.Ops))
 	for _, o := range d.Ops {
 		ops = append(ops, M{"method": trace.B(o.Method), "path": trace.B(o.Path), "consumes": trace.BB(o.Consumes),
-			"produces": trace.BB(o.Produces), "sec": o.Sec.JSON(), "body": o.Body})
+			"produces": trace.BB(o.Produces), "sec": o.Sec.JSON(), "body": o.Body, "nocontent": o.NoContent})
 	}
 	return M{"consumes": trace.BB(d.Consumes), "produces": trace.BB(d.Produces), "sec": d.Sec.JSON(), "defs": trace.BB(d.Defs), "ops": ops}
 }
@@ -106,7 +108,7 @@ func descFromJSON(v any) Desc {
 	for _, ov := range drv.List(m["ops"]) {
 		om := drv.Map(ov)
 		d.Ops = append(d.Ops, Op{Method: trace.Str(om["method"]), Path: trace.Str(om["path"]), Consumes: strs(om["consumes"]),
-			Produces: strs(om["produces"]), Sec: secFromJSON(om["sec"]), Body: drv.Bool(om["body"])})
+			Produces: strs(om["produces"]), Sec: secFromJSON(om["sec"]), Body: drv.Bool(om["body"]), NoContent: drv.Bool(om["nocontent"])})
 	}
 	return d
 }
@@ -150,6 +152,9 @@ func (d Desc) Swagger() []byte {
 		op := map[string]any{
 			"operationId": fmt.Sprintf("op%d", i+1),
 			"responses":   map[string]any{"200": map[string]any{"description": "ok"}},
+		}
+		if o.NoContent {
+			op["responses"] = map[string]any{"204": map[string]any{"description": "no content"}}
 		}
 		if len(o.Consumes) > 0 {
 			op["consumes"] = o.Consumes
@@ -441,7 +446,7 @@ func generate(c *drv.Ctx) {
 		m, p string
 		body bool
 	}
-	mps := []mp{{"get", "/a", false}, {"post", "/a", true}, {"get", "/b", false}}
+	mps := []mp{{"get", "/a", false}, {"post", "/a", true}, {"get", "/v1.0/b", false}} // a '.' in a path: nothing but a literal byte
 	var opPool []Op
 	for _, x := range mps {
 		cons := opMedia
@@ -522,6 +527,17 @@ func generate(c *drv.Ctx) {
 		}
 		c.Case(descriptor(d, regs))
 	}
+	// (v) answers without body need no producer: descriptions without any media type, served without the JSON defaults,
+	// whose operations answer 204 No Content or are HEAD operations (plus some with media types)
+	for k, gm := range [][]string{nil, nil, {jsonMime}, {xmlMime}} {
+		ksec := Sec{true, [][]string{{"k"}}}
+		d := Desc{Consumes: nil, Produces: gm, Sec: []Sec{noSec, ksec}[k%2], Defs: [][]string{nil, {"k"}}[k%2], Ops: []Op{
+			{Method: "get", Path: "/a", NoContent: true}, {Method: "head", Path: "/b"}, {Method: "get", Path: "/v1.0/pets", NoContent: true},
+			{Method: "delete", Path: "/c", NoContent: true, Sec: []Sec{noSec, {true, [][]string{{"k"}, {}}}}[k%2]},
+			{Method: "get", Path: "/pets/photo.png"}}}
+		emit(d)
+		c.Case(descriptor(Desc{Produces: gm, Ops: d.Ops[:1+k]}, []Reg{exact(Desc{Produces: gm, Ops: d.Ops[:1+k]}, false)}))
+	}
 	// (iv) histories of one API value: registration changes interleaved with Validate
 	nHist := 400
 	if thorough {
@@ -590,8 +606,8 @@ func randomDesc(c *drv.Ctx) Desc {
 		return s
 	}
 	d := Desc{Consumes: pick(3), Produces: pick(3), Sec: randSec(), Defs: defs}
-	methods := []string{"get", "post", "put", "delete", "patch"}
-	paths := []string{"/a", "/b", "/a/b", "/c"}
+	methods := []string{"get", "post", "put", "delete", "patch", "head"}
+	paths := []string{"/a", "/b", "/a/b", "/c", "/v1.0/pets", "/pets/photo.png", "/a.b"}
 	seen := map[string]bool{}
 	for n := 1 + r.Intn(6); n > 0; n-- {
 		m, p := methods[r.Intn(len(methods))], paths[r.Intn(len(paths))]
@@ -599,7 +615,7 @@ func randomDesc(c *drv.Ctx) Desc {
 			continue
 		}
 		seen[m+" "+p] = true
-		o := Op{Method: m, Path: p, Sec: randSec(), Body: m == "post" || m == "put" || m == "patch"}
+		o := Op{Method: m, Path: p, Sec: randSec(), Body: m == "post" || m == "put" || m == "patch", NoContent: m != "head" && r.Intn(4) == 0}
 		if r.Intn(2) == 0 {
 			o.Consumes = pick(2)
 		}
@@ -732,6 +748,13 @@ func execute(c *drv.Ctx, dd M) bool {
 				ctypes = d.consumesFor(o)
 				if len(ctypes) == 0 {
 					ctypes = []string{""}
+				} else {
+					// a request may spell the media type in any letter case
+					for _, ct := range d.consumesFor(o) {
+						if v := caseVariant(ct); v != ct {
+							ctypes = append(ctypes, v)
+						}
+					}
 				}
 			}
 			accepts := append([]string{""}, d.producesFor(o)...)
